@@ -104,6 +104,13 @@ Lemma ok_down_neg_flag_holds : ok_down_neg_flag K.
 Proof. intros s c d. unfold interp_ok, gen_io_interp_down_neg_flag. cbn [indices flat_map map zseq seq Z.to_nat Pos.to_nat Pos.iter_op Nat.add app Z.of_nat Pos.of_succ_nat Pos.succ].
   repeat constructor; fcbv; list_eq; field; side. Qed.
 
+Lemma ok_up_fractional_holds : ok_up_fractional K.
+Proof. intros s c d. unfold interp_ok, gen_io_interp_up_fractional. cbn [indices flat_map map zseq seq Z.to_nat Pos.to_nat Pos.iter_op Nat.add app Z.of_nat Pos.of_succ_nat Pos.succ].
+  repeat constructor; fcbv; list_eq; field; side. Qed.
+Lemma ok_up_fractional_nac_holds : ok_up_fractional_nac K.
+Proof. intros s c d. unfold interp_ok, gen_io_interp_up_fractional_nac. cbn [indices flat_map map zseq seq Z.to_nat Pos.to_nat Pos.iter_op Nat.add app Z.of_nat Pos.of_succ_nat Pos.succ].
+  repeat constructor; fcbv; list_eq; field; side. Qed.
+
 Lemma traced_index_ops_hold_K : traced_index_ops_ok K.
-Proof. unfold traced_index_ops_ok. repeat split; first [apply ok_down_neg_nac_holds | apply ok_down_neg_flag_holds | apply (ok_roi2_holds K Kf Kc) | apply (ok_roi2_pad_holds K Kf Kc) | apply (ok_conv2_holds K Kf) | apply (ok_conv2_holds K Kf Kc) | apply (ok_crop_num_holds K Kf Kc) | apply (ok_crop_margin_holds K Kf Kc) | apply (ok_crop_mixed_holds K Kf Kc) | apply (ok_pad_num_holds K Kf Kc) | apply (ok_pad_margin_holds K Kf Kc) | apply (ok_center_crop_holds K Kf Kc) | apply (ok_center_crop_odd_holds K Kf Kc) | apply (ok_center_pad_holds K Kf Kc) | apply (ok_center_pad_odd_holds K Kf Kc) | apply (ok_narrow_x_holds K Kf Kc) | apply (ok_narrow_y_holds K Kf Kc) | apply (ok_crop3_holds K Kf Kc) | apply (ok_roi3_holds K Kf Kc) | apply (ok_narrow_z_holds K Kf Kc) | apply (ok_pool2_holds K Kf Kc) | apply (ok_pool_aniso_holds K Kf Kc) | apply ok_resize_default_holds | apply ok_resize_default_nac_holds | apply ok_resize_flag_holds | apply ok_down_default_holds | apply ok_down_default_nac_holds | apply ok_down_flag_holds | apply ok_down_dims_holds | apply ok_up_default_holds | apply ok_up_default_nac_holds | apply ok_up_flag_holds | apply ok_resize3_holds]. Qed.
+Proof. unfold traced_index_ops_ok. repeat split; first [apply ok_up_fractional_holds | apply ok_up_fractional_nac_holds | apply ok_down_neg_nac_holds | apply ok_down_neg_flag_holds | apply (ok_roi2_holds K Kf Kc) | apply (ok_roi2_pad_holds K Kf Kc) | apply (ok_conv2_holds K Kf) | apply (ok_conv2_holds K Kf Kc) | apply (ok_crop_num_holds K Kf Kc) | apply (ok_crop_margin_holds K Kf Kc) | apply (ok_crop_mixed_holds K Kf Kc) | apply (ok_pad_num_holds K Kf Kc) | apply (ok_pad_margin_holds K Kf Kc) | apply (ok_center_crop_holds K Kf Kc) | apply (ok_center_crop_odd_holds K Kf Kc) | apply (ok_center_pad_holds K Kf Kc) | apply (ok_center_pad_odd_holds K Kf Kc) | apply (ok_narrow_x_holds K Kf Kc) | apply (ok_narrow_y_holds K Kf Kc) | apply (ok_crop3_holds K Kf Kc) | apply (ok_roi3_holds K Kf Kc) | apply (ok_narrow_z_holds K Kf Kc) | apply (ok_pool2_holds K Kf Kc) | apply (ok_pool_aniso_holds K Kf Kc) | apply ok_resize_default_holds | apply ok_resize_default_nac_holds | apply ok_resize_flag_holds | apply ok_down_default_holds | apply ok_down_default_nac_holds | apply ok_down_flag_holds | apply ok_down_dims_holds | apply ok_up_default_holds | apply ok_up_default_nac_holds | apply ok_up_flag_holds | apply ok_resize3_holds]. Qed.
 End C04Gen.
